@@ -237,7 +237,7 @@ const ASCII_ACCOUNTS: &[&str] = &[
     "Assets:Bank", "Assets:Cash", "Expenses:Food", "Expenses:Grocery Store", "Income:Salary",
     "Liabilities:Card", "Equity", "A", "Assets:Broker:Lot 1", "Expenses:Tax:2024",
 ];
-const UNI_ACCOUNTS: &[&str] = &["資産:銀行", "Assets:J 銀行", "費用:食費", "Активы:Банк", "Dépenses:Café", "자산:은행"];
+const UNI_ACCOUNTS: &[&str] = &["資産:銀行", "Assets:J 銀行", "費用:食費", "Активы:Банк", "Dépenses:Café", "자산:은행", "支出:食費\u{3000}外食", "Assets:Caf\u{a0}Bar"];
 const PUNCT_ACCOUNTS: &[&str] = &["Assets:A=B", "Assets:Foo(bar)", "Expenses:50%", "Assets:a@b", "Liabilities:#1", "Assets:x{y}", "Income:[old]"];
 const ASCII_COMMODITIES: &[&str] = &["USD", "EUR", "JPY", "CHF", "AAPL", "OKANE", "Pt"];
 const UNI_COMMODITIES: &[&str] = &["$", "€", "米ドル", "円", "₿"];
@@ -1228,7 +1228,9 @@ pub fn dump_entry(e: &LedgerEntry) -> String {
                 t.effective_date.map(|d| d.to_string()).unwrap_or("-".into()),
                 state_char(t.clear_state),
                 t.code.as_ref().map(|c| format!("some:{}", c.trim())).unwrap_or("none".into()),
-                t.payee.trim()
+                // ASCII blanks around a payee are not significant in the grammar (the header parser
+                // skips them); any other leading character, a wide space included, is payee text
+                t.payee.trim_end().trim_start_matches([' ', '\t'])
             ));
             for m in &t.metadata {
                 dump_meta(&mut out, m);
